@@ -239,6 +239,7 @@ fn base_case(kind: KindTag, planner: PlannerTag) -> PlanCase {
         space2: None,
         fault_persists: false,
         raw_space: false,
+        prm_timeout: None,
     }
 }
 
@@ -252,7 +253,7 @@ impl Prop for C08 {
     // error"
     const HANG_IS_VIOLATION: bool = true;
     const WATCHDOG_S: u64 = 30;
-    const RULE: &'static str = "enumerated: every call sequence of length <= 4 (quick) / 6 (thorough) over {setup(P1), setup(P2), construct_roadmap, set_problem_definition(P2), solve} per planner on two base worlds (RV2, SE2); every k < 12 for 'uniform sampler fails at its k-th call' and 'goal sampler fails at its k-th call' per planner, and k in {0,1,2,5} for the same faults persisting from the k-th call on (a call that does not return within 30 s is a violation); goal bias in {-0.1, 1+ulp, 1.5, NaN, +-inf}; empty start list; negative / NaN / zero step and radius; zero-sample roadmaps. Random (4% with an angular interval the constructor must refuse: touching [-pi, pi] from outside or empty after clamping): generated worlds with histories of up to 10 ops and the same fault kinds. Reference model of the API state gives the set of acceptable results per call; every call runs under catch_unwind. Non-trivial = history containing a misuse op, a sampler fault that was actually reached, an out-of-range parameter or an empty start list.";
+    const RULE: &'static str = "enumerated: every call sequence of length <= 4 (quick) / 6 (thorough) over {setup(P1), setup(P2), construct_roadmap, set_problem_definition(P2), solve} per planner on two base worlds (RV2, SE2); every k < 12 for 'uniform sampler fails at its k-th call' and 'goal sampler fails at its k-th call' per planner, and k in {0,1,2,5} for the same faults persisting from the k-th call on (a call that does not return within 30 s is a violation); goal bias in {-0.1, 1+ulp, 1.5, NaN, +-inf}; empty start list; negative / NaN / zero step and radius; PRM construction times in {-1, -1e-9, +-0, NaN, +-inf, 1e300}; zero-sample roadmaps. Random (4% with an angular interval the constructor must refuse: touching [-pi, pi] from outside or empty after clamping): generated worlds with histories of up to 10 ops and the same fault kinds. Reference model of the API state gives the set of acceptable results per call; every call runs under catch_unwind. Non-trivial = history containing a misuse op, a sampler fault that was actually reached, an out-of-range parameter or an empty start list.";
     fn random_cases(tier: Tier) -> usize {
         tier.pick(8_000, 80_000)
     }
@@ -278,6 +279,10 @@ impl Prop for C08 {
                     break;
                 }
             }
+        }
+        // PRM construction times a caller might pass: negative, zero, NaN, infinite, absurdly large
+        if c.planner == PlannerTag::PRM && ch.prob(0.12) {
+            c.prm_timeout = Some(ch.pick(&[-1.0, -0.0, 0.0, f64::NAN, f64::INFINITY, f64::NEG_INFINITY, 1e300, -1e-9]));
         }
         // misuse-heavy histories: drop the well-formed prefix half of the time
         if ch.prob(0.5) {
@@ -404,6 +409,14 @@ impl Prop for C08 {
                         c.goal_bias = bias;
                         c.goal_fail_at = Some(k);
                         c.fault_persists = true;
+                        emit(c);
+                    }
+                }
+                if planner == PlannerTag::PRM {
+                    for t in [-1.0, -1e-9, -0.0, 0.0, f64::NAN, f64::INFINITY, f64::NEG_INFINITY, 1e300] {
+                        let mut c = base_case(kind, planner);
+                        c.ops = std_ops.clone();
+                        c.prm_timeout = Some(t);
                         emit(c);
                     }
                 }
